@@ -108,6 +108,8 @@ def stepTyped (t : TRing Int) (isChar : Bool) (w : List String) : Option (TRing 
       let a ← i32 a; let b ← i32 b
       pure (t, toString (t.distance a b).toInt)
   | ["setlast", i] => do let i ← i32 i; pure (t.setLastIndex i, "-")
+  | ["settail", i] => do let i ← u32 i; pure ({ t with r := { t.r with tail := i } }, "-")
+  | ["fillbuf"] => pure ({ t with buf := (List.range t.buf.length).map fun (i : Nat) => norm ((i : Int) + 1) }, "-")
   | ["copy"] => pure (TRing.copy 0 t, "-")
   | ["assign"] => pure (TRing.assign (TRing.mk' 0 3) t, "-")
   | ["move"] =>
